@@ -171,7 +171,7 @@ func parseSubstituteIfArgs(f slip.Object, s *slip.Scope, args slip.List, depth i
 	if v, ok := slip.GetArgsKeyValue(kargs, slip.Symbol(":count")); ok {
 		switch tv := v.(type) {
 		case slip.Fixnum:
-			sr.count = int(tv)
+			sr.count = max(int(tv), 0) // a negative count behaves like zero
 		case nil:
 			// leave as -1 for now
 		default:
@@ -187,6 +187,9 @@ func (sr *subIfRep) replace(seq slip.List) slip.Object {
 	}
 	if sr.count < 0 {
 		sr.count = len(seq)
+	}
+	if sr.count == 0 {
+		return seq
 	}
 	if sr.rev {
 		for i := sr.end - 1; sr.start <= i; i-- {
@@ -211,8 +214,8 @@ func (sr *subIfRep) maybe(seq slip.List, i int) bool {
 	}
 	if sr.pc.Call(sr.s, slip.List{v}, sr.depth) != nil {
 		seq[i] = sr.rep
+		sr.count--
 	}
-	sr.count--
 	return sr.count <= 0
 }
 
@@ -222,6 +225,9 @@ func (sr *subIfRep) replaceBytes(seq []byte) slip.Object {
 	}
 	if sr.count < 0 {
 		sr.count = len(seq)
+	}
+	if sr.count == 0 {
+		return slip.Octets(seq)
 	}
 	if sr.rev {
 		for i := sr.end - 1; sr.start <= i; i-- {
@@ -246,7 +252,7 @@ func (sr *subIfRep) maybeByte(seq []byte, i int) bool {
 	}
 	if sr.pc.Call(sr.s, slip.List{v}, sr.depth) != nil {
 		seq[i] = byte(sr.rep.(slip.Octet))
+		sr.count--
 	}
-	sr.count--
 	return sr.count <= 0
 }
